@@ -26,7 +26,7 @@
 From Coq Require Import ZArith QArith Qminmax List.
 From VL Require Import Prelude.PyDict Model.GetNBest Model.Convert Model.Cardinal Proofs.Cardinal_proofs
      Proofs.MJ_proofs Proofs.JR_proofs Model.Condorcet Model.Star Proofs.Star_proofs
-     Model.Quota Model.AllocScore Proofs.AllocScore_proofs Proofs.MJ_removal_proofs Proofs.MJ_seats_proofs.
+     Model.Quota Model.AllocScore Proofs.AllocScore_proofs Proofs.MJ_removal_proofs Proofs.MJ_seats_proofs Proofs.Shape2_proofs Proofs.Star_seats_proofs.
 From Coq Require Import Permutation.
 Import ListNotations.
 Close Scope Q_scope.
@@ -483,6 +483,70 @@ Example C12_mj_seats_example :
     mj_seq 1 (dget_or sc 1%positive []) = Some 0%Q /\ mj_seq 1 (dget_or sc 2%positive []) = Some 1%Q.
 Proof. exact mj_seats_example. Qed.
 
+(* ---- STAR against its definition, any number of seats (Proofs/Star_seats_proofs.v).
+   The run-off table: for run-off members x, y the pairwise dictionary holds exactly the ballot weight that places x
+   above y (unscored below every scored candidate), and the candidates Schulze sees are exactly the members that some
+   ballot separates from another member ([separated]). *)
+Theorem C12_star_table : forall votes members,
+  NoDup members ->
+  (forall x y, In x members -> In y members -> pget0 (star_pairwise votes members) (x, y) = support votes x y) /\
+  (forall x, In x (candidates (star_pairwise votes members)) <-> In x members /\ separated votes members x = true).
+Proof.
+  intros votes members Hnd. split.
+  - intros x y Hx Hy. exact (star_pairwise_support votes members x y Hnd Hx Hy).
+  - intros x. exact (star_candidates votes members x).
+Qed.
+
+(* STAR for n seats is Schulze over that table of the run-off members [star_finalists agg n] (the plain entries among the
+   n + 1 highest score sums; distinct); it returns min(n, number of separated members) entries.  The silently shorter
+   answers (known finding C08-star-short) are EXACTLY the class [star_shortb]: fewer than n run-off members are separated
+   from another member by some ballot (decidable; includes a tied finalist cut, which empties or shrinks the run-off);
+   in the class the answer lists just the separated members, plainly; outside it the answer is a well-shaped selection
+   of n (nform: distinct plain winners, then at most one tie object repeated for the open seats, with more members than
+   open seats) among the separated members.  Schulze itself on such a table: C05_schulze_score / _strongest_paths. *)
+Theorem C12_star_seats : forall votes order agg n r,
+  1 <= n -> score_to_simple star_cfg votes = inl agg -> star votes order n = inl r ->
+  r = schulze (star_pairwise votes (star_finalists agg n)) order n /\
+  NoDup (star_finalists agg n) /\
+  length r = Nat.min n (length (star_contest votes agg n)) /\
+  (length r < n <-> star_shortb votes agg n = true) /\
+  (star_shortb votes agg n = false -> nform (star_contest votes agg n) n r) /\
+  (star_shortb votes agg n = true -> exists s, Permutation s (star_contest votes agg n) /\ r = map Cand s).
+Proof. intros votes order agg n r Hn Ha Hr. exact (star_seats votes order agg n r Hn Ha Hr). Qed.
+
+(* one seat, every profile with positive ballot weights - the complete table: two untied finalists a, b (the two highest
+   score sums, not level with the third): the one placed above the other by strictly more ballot weight wins; equal
+   positive weights: the tie of the two; no ballot separates them: nothing (the short class).  No two untied finalists
+   (a tie at the finalist cut, or a single candidate): nothing. *)
+Theorem C12_star_single_exact : forall votes agg,
+  (forall bw, In bw votes -> (0 < snd bw)%Z) ->
+  score_to_simple star_cfg votes = inl agg ->
+  match get_n_best Qle_bool agg 2 with
+  | [Cand a; Cand b] =>
+      ((support votes b a < support votes a b)%Z -> star_auto votes 1 = inl [Cand a]) /\
+      ((support votes a b < support votes b a)%Z -> star_auto votes 1 = inl [Cand b]) /\
+      (support votes a b = support votes b a -> (0 < support votes a b)%Z ->
+         star_auto votes 1 = inl [TieR [a; b]] \/ star_auto votes 1 = inl [TieR [b; a]]) /\
+      (support votes a b = 0%Z -> support votes b a = 0%Z -> star_auto votes 1 = inl [])
+  | _ => star_auto votes 1 = inl []
+  end.
+Proof. exact star_single_exact. Qed.
+
+(* both sides of the class are inhabited: C12_star_example's profile is outside it, the recorded witness of C08-star-short
+   (two voters A:5 B:5 D:3) is inside *)
+Example C12_star_short_example :
+  (exists agg, score_to_simple star_cfg star_short_votes = inl agg /\ star_shortb star_short_votes agg 1 = true) /\
+  star_auto star_short_votes 1 = inl [] /\
+  let votes : sprofile := [([(1%positive, 5#1); (2%positive, 0#1); (3%positive, 0#1)], 1%Z);
+                           ([(1%positive, 4#1); (2%positive, 2#1)], 1%Z);
+                           ([(1%positive, 0#1); (2%positive, 2#1); (3%positive, 1#1)], 3%Z)]%Q in
+  exists agg, score_to_simple star_cfg votes = inl agg /\ star_shortb votes agg 1 = false /\ star_shortb votes agg 2 = false /\
+    star_auto votes 2 = inl [Cand 2%positive; Cand 3%positive].
+Proof.
+  split; [eexists; split; vm_compute; reflexivity|]. split; [vm_compute; reflexivity|].
+  eexists. split; [vm_compute; reflexivity|]. repeat split; vm_compute; reflexivity.
+Qed.
+
 Print Assumptions C12_combinations_complete.
 Print Assumptions C12_combinations_sound.
 Print Assumptions C12_pav_optimal.
@@ -523,3 +587,6 @@ Print Assumptions C12_mj_seats_default.
 Print Assumptions C12_mj_seats_tiebreaker.
 Print Assumptions C12_mj_seats_plus.
 Print Assumptions C12_mj_seats_round.
+Print Assumptions C12_star_table.
+Print Assumptions C12_star_seats.
+Print Assumptions C12_star_single_exact.
